@@ -95,12 +95,17 @@ class Probe(BaseComponent):
     @handler('request', priority=100)
     def _rq(self, event, req, res, *a):
         self.keep.append(req)              # keeps id(req) unique for the whole case
-        self.log.append(['request', id(req), req.method])
+        self.log.append(['request', id(req), req.method, getattr(req.sock, 'n', -1)])
 
     @handler('httperror', priority=100)
     def _he(self, event, req, res, code=None, **kw):
         self.keep.append(req)
-        self.log.append(['httperror', id(req), int(event.code), req.method])
+        self.log.append(['httperror', id(req), int(event.code), req.method, getattr(req.sock, 'n', -1)])
+
+    @handler('response', priority=100)
+    def _rs(self, res, *a):
+        # runs before HTTP._on_response: the method decides whether a body follows the header section
+        self.log.append(['response', getattr(res.request, 'method', None), getattr(res.request.sock, 'n', -1)])
 
     @handler('write', priority=100)
     def _w(self, sock, data):
@@ -336,12 +341,12 @@ def run_case(case):
             for rec in new:
                 if rec[0] == 'request':
                     dispatched.add(rec[1])
-                    methods.append(rec[2])
                     effs.append([4])
+                elif rec[0] == 'response':
+                    methods.append(rec[1])
                 elif rec[0] == 'httperror':
                     if rec[1] not in dispatched:
                         effs.append([1, rec[2]])
-                        methods.append(rec[3])
                 elif rec[0] == 'write':
                     if rec[1] != n:
                         problems.append('write to another socket (%d) while serving %d' % (rec[1], n))
@@ -371,7 +376,9 @@ def run_case(case):
             req = Trace.req or (held[0] if held else None)
             pa = path_answer(req) if req is not None else None
             app = 0
-            for i, e in enumerate(effs):
+            if any(e[0] == 'X' and e[2] == 'request' for e in effs):
+                app = None                                  # a handler of the request event raised
+            for i, e in enumerate(effs if app is not None else []):
                 if e == [4]:
                     for e2 in effs[i + 1:]:
                         if e2[0] == 2:
@@ -428,7 +435,9 @@ def run_burst(case):
             stuck = True
         written, methods, closes, excs = {}, {}, {}, []
         for rec in probe.log:
-            if rec[0] == 'write':
+            if rec[0] == 'response':
+                methods.setdefault(rec[2], []).append(rec[1])
+            elif rec[0] == 'write':
                 written[rec[1]] = written.get(rec[1], b'') + rec[2]
             elif rec[0] == 'close':
                 closes[rec[1]] = closes.get(rec[1], 0) + 1
@@ -437,7 +446,7 @@ def run_burst(case):
         problems = []
         nresp = {}
         for n, data in sorted(written.items()):
-            rs = decode_responses(data, [])
+            rs = decode_responses(data, methods.get(n, []))
             nresp[str(n)] = [r[:4] for r in rs]
             problems += ['connection %d: %s' % (n, r[4]) for r in rs if r[4]]
         n0 = len(probe.log)
@@ -744,7 +753,8 @@ class C14(Prop):
         else:
             pa = '(Ret %s)' % ('PCanon' if s['path'] == 'canon' else 'PRedirect')
         xr = R('excreq', lambda v: 'tt')
-        return '(mkA %s %s %s %s %s %s %s %s)' % (ssl, ex, er, rq, cl, pa, xr, N(s['app']))
+        ap = 'Raise' if s['app'] is None else '(Ret %s)' % N(s['app'])
+        return '(mkA %s %s %s %s %s %s %s %s)' % (ssl, ex, er, rq, cl, pa, xr, ap)
 
     def model_term(self, case):
         if case.get('burst'):
@@ -795,7 +805,7 @@ class C14(Prop):
             if obs['problems']:
                 return 'burst: %s' % obs['problems'][0]
             for e in obs['exceptions']:
-                if e[1] != 'read':
+                if e[1] not in ('read', 'request'):
                     return 'burst: %s raised in the handler of %r' % (e[0], e[1])
             if obs['retained_for']:
                 return 'retained-parser: burst: state for connection %d is retained although it has disconnected' % obs['retained_for'][0]
@@ -835,10 +845,10 @@ class C14(Prop):
                 return '%s: %d responses for %d dispatched and %d rejected messages' % (where, len(resp), len(disp), len(rej))
             gone = case.get('gone') is not None     # then no Request, hence no response, can be built: silence is all there is
             for e in exc:
-                if e[2] != 'read' and not (gone and e[2] == 'exception' and e[1] == 'OSError'):
+                if e[2] not in ('read', 'request') and not (gone and e[2] == 'exception' and e[1] == 'OSError'):
                     return '%s: %s raised in the handler of %r' % (where, e[1], e[2])
             if exc and not gone and not (resp and resp[0][1] >= 500):
-                return '%s: %s raised in the read handler is not answered with a 5xx response' % (where, exc[0][1])
+                return '%s: %s raised in the %s handler is not answered with a 5xx response' % (where, exc[0][1], exc[0][2])
             if rej:
                 if disp:
                     return '%s: request event dispatched for a rejected message' % where
@@ -869,6 +879,10 @@ class C14(Prop):
         return None
 
     def finding_class(self, case, obs, what):
+        # C14-nul-in-location: a NUL byte of the Host header is reflected into the Location header of the 301 that answers a
+        # non-canonical path; nothing else is covered
+        if 'is not field-name: value' in what and "header line b'Location: " in what and '\\x00' in what:
+            return 'C14-nul-in-location'
         return None
 
     def nontrivial(self, case, obs):
